@@ -6,6 +6,7 @@ cd "$(dirname "$0")/.."
 declare -A EXTRA=( [C17-1]="C10" [C02-1]="C10" [C01-2]="C17" )
 for d in seeded/*/; do
   sid=$(basename "$d"); prop=${sid%-*}
+  [ -f "$d/RETIRED" ] && continue
   out="["
   for id in $prop ${EXTRA[$sid]:-}; do
     s=$(date +%s)
